@@ -115,7 +115,6 @@ pub fn flow_slots(t: usize, opts: &[Vec<V>], rich: Rich) -> Vec<Vec<Letter>> {
         mk(&|v| Letter::one(u(Some(1), "CAL", "GASNATURAL", v))),
         mk(&|v| Letter::one(u(Some(1), "ACS", "EAMBIENTE", v))),
         mk(&|v| Letter::one(p(Some(1), "EAMBIENTE", v))),
-        mk(&|v| Letter::one(p(Some(3), "EL_INSITU", v))),
     ];
     if rich == Rich::Wide {
         slots.push(mk(&|v| Letter::one(u(Some(0), "NEPB", "EAMBIENTE", v))));
@@ -317,4 +316,13 @@ pub fn mag12_letters() -> Vec<Letter> {
         Letter::one(p(Some(1), "EAMBIENTE", &big(m, 30))),
         Letter::one(u(Some(1), "CAL", "GASNATURAL", &big(5, m))),
     ]
+}
+
+/// an extra slot for the deep FLOW model: a second PV field in a system that sorts after the cogenerator
+pub fn second_pv_slot(opts: &[Vec<V>]) -> Vec<Letter> {
+    let mut s = vec![Letter::many(vec![])];
+    for v in opts {
+        s.push(Letter::one(p(Some(3), "EL_INSITU", v)));
+    }
+    s
 }
